@@ -337,7 +337,19 @@ def run(ctx) -> int:
     n_run, disagreements, kn, kbad, lines = pipecheck.correspond(cases, "c16")
     count = {"histories": 0, "labels": 0, "triples": 0}
 
+    # the hand-made corner documents as D, with definition blocks that define the labels they use (and more), seeded once / twice
+    FIXED_R = ["[foo]: /seeded 'S'\n[a]: /sa\n[r]: /sr \"one\\\ntwo\"\n[s]: /ss\n[bar]: <b>\n",
+               "[FOO]: /upper\n[Foo]: /dup 't&#10;u'\n[b]:\n/wrapped\n'title'\n"]
+
     def probe(r, scale):
+        for cd in docs.corner_docs():
+            D = cd if cd.endswith("\n") else cd + "\n"
+            for j, R in enumerate(FIXED_R):
+                cfg, md = mds[(1, 2)[j]]
+                count["histories"] += 1
+                d = part_a(md, R, D, 1 + j)
+                if d:
+                    return {"config": cfg, "R": R, "D": D, "times": 1 + j, "part": "A", **d}
         for k in range(int(500 * scale)):
             cfg, md = mds[k % 3]
             D, labs = gen_D(r)
